@@ -131,7 +131,97 @@ struct VecDriver {
     }
 
     // ---------------------------------------------------------------- helpers
-    static auto mk(int64_t v) -> T { return T(static_cast<int>(v)); }
+    static constexpr bool floating = std::is_floating_point_v<T>;
+
+    static auto mk(int64_t v) -> T
+    {
+        if constexpr (floating) {
+            return static_cast<T>(decode_float(v));
+        } else {
+            return T(static_cast<int>(v));
+        }
+    }
+
+    // constructor argument for the emplace family: the int itself (in-place construction from an argument), or the
+    // decoded value for floating-point elements
+    static auto earg(int v) -> std::conditional_t<floating, double, int>
+    {
+        if constexpr (floating) {
+            return decode_float(v);
+        } else {
+            return v;
+        }
+    }
+
+    // The six relations as the pre-C++20 definitions compute them from operator== and operator< alone. For sequences
+    // that contain unordered values (NaN) they differ from C++20's std::vector, whose ordering operators come from a
+    // synthesised three-way comparison: known finding KF-C01-relational-partial-order.
+    template <typename Seq>
+    static void legacy_relations(Seq const& a, Seq const& b, bool (&w)[6])
+    {
+        auto lt = [](Seq const& x, Seq const& y) {
+            size_t i = 0;
+            for (; i < x.size() && i < y.size(); ++i) {
+                if (x[i] < y[i]) {
+                    return true;
+                }
+                if (y[i] < x[i]) {
+                    return false;
+                }
+            }
+            return i == x.size() && i != y.size();
+        };
+        w[0] = a == b;
+        w[1] = !(a == b);
+        w[2] = lt(a, b);
+        w[3] = !lt(b, a);
+        w[4] = lt(b, a);
+        w[5] = !lt(a, b);
+    }
+
+    // returns true if the observed relations are the known pre-C++20 deviation (and records it)
+    template <typename Seq>
+    static auto known_partial_order_deviation(Ctx& ctx, Seq const& a, Seq const& b, bool const (&r)[6]) -> bool
+    {
+        if constexpr (floating) {
+            if (!kf_open("KF-C01-relational-partial-order")) {
+                return false;
+            }
+            bool hasNan = false;
+            for (auto x : a) {
+                hasNan = hasNan || x != x;
+            }
+            for (auto x : b) {
+                hasNan = hasNan || x != x;
+            }
+            bool w[6]{};
+            legacy_relations(a, b, w);
+            for (int k = 0; k < 6; ++k) {
+                if (r[k] != w[k]) {
+                    return false;
+                }
+            }
+            if (hasNan) {
+                ctx.kf("KF-C01-relational-partial-order");
+                return true;
+            }
+        }
+        return false;
+    }
+
+    // model-side comparison vectors: codes for ordinary element types, decoded values for floating-point ones
+    static auto comparable(std::vector<int> const& m)
+    {
+        if constexpr (floating) {
+            std::vector<double> d;
+            for (int c : m) {
+                d.push_back(decode_float(c));
+            }
+            return d;
+        } else {
+            return m;
+        }
+    }
 
     auto sane(int s) -> bool { return obj[s]->size() <= N; }
 
@@ -358,10 +448,15 @@ struct VecDriver {
                         ctx.violation("C05", "contract:spurious", "handler entered in a relational operator");
                         return;
                     }
-                    bool const w[6] = {ma == mb, ma != mb, ma < mb, ma <= mb, ma > mb, ma >= mb};
+                    auto const ca   = comparable(ma);
+                    auto const cb   = comparable(mb);
+                    bool const w[6] = {ca == cb, ca != cb, ca < cb, ca <= cb, ca > cb, ca >= cb};
                     static char const* const names[6] = {"==", "!=", "<", "<=", ">", ">="};
                     for (int k = 0; k < 6; ++k) {
                         if (r[k] != w[k]) {
+                            if (known_partial_order_deviation(ctx, ca, cb, r)) {
+                                break;
+                            }
                             ctx.violation("C01", std::string("diff:relational:") + names[k], "operator differs from std::vector");
                             return;
                         }
@@ -523,7 +618,7 @@ struct VecDriver {
             , n(count)
         {
             for (size_t i = 0; i < count; ++i) {
-                new (buf.p + i) T(static_cast<int>((st.v[i % 4] + static_cast<int64_t>(i / 4)) % 8));
+                new (buf.p + i) T(mk((st.v[i % 4] + static_cast<int64_t>(i / 4)) % 8));
             }
         }
 
@@ -592,7 +687,7 @@ struct VecDriver {
                     } else if (op == "push_back_move") {
                         v.push_back(static_cast<T&&>(tmp));
                     } else {
-                        v.emplace_back(val);
+                        v.emplace_back(earg(val));
                     }
                 });
                 if (ok) {
@@ -655,7 +750,7 @@ struct VecDriver {
                     } else if (op == "insert_move") {
                         ret = v.insert(where, static_cast<T&&>(tmp));
                     } else {
-                        ret = v.emplace(where, val);
+                        ret = v.emplace(where, earg(val));
                     }
                 });
                 if (ok) {
@@ -1014,7 +1109,12 @@ struct VecDriver {
                     if (ok) {
                         size_t want = 0;
                         if (op == "erase_value") {
-                            want = static_cast<size_t>(std::erase(m, val));
+                            if constexpr (floating) {
+                                double const dv = decode_float(val);
+                                want            = static_cast<size_t>(std::erase_if(m, [dv](int c) { return decode_float(c) == dv; }));
+                            } else {
+                                want = static_cast<size_t>(std::erase(m, val));
+                            }
                         } else {
                             want = static_cast<size_t>(std::erase_if(m, [val](int x) { return x % 2 == val % 2; }));
                         }
@@ -1277,7 +1377,7 @@ struct VecDriver {
                     } else if (op == "try_push_back_move") {
                         ret = v.try_push_back(static_cast<T&&>(tmp));
                     } else {
-                        ret = v.try_emplace_back(val);
+                        ret = v.try_emplace_back(earg(val));
                     }
                 });
                 if (ok) {
@@ -1328,7 +1428,7 @@ struct VecDriver {
                         } else if (op == "unchecked_push_back_move") {
                             ret = &v.unchecked_push_back(static_cast<T&&>(tmp));
                         } else {
-                            ret = &v.unchecked_emplace_back(val);
+                            ret = &v.unchecked_emplace_back(earg(val));
                         }
                     });
                     if (ok) {
@@ -1668,11 +1768,14 @@ struct StackDriver : DriverBase<StackDriver<T, N>> {
                     })) {
                     return;
                 }
-                auto const& ma  = model[x];
-                auto const& mb  = model[y];
+                auto const ma   = VecDriver<C, T, N, VK::static_vec>::comparable(model[x]);
+                auto const mb   = VecDriver<C, T, N, VK::static_vec>::comparable(model[y]);
                 bool const w[6] = {ma == mb, ma != mb, ma < mb, ma <= mb, ma > mb, ma >= mb};
                 for (int k = 0; k < 6; ++k) {
                     if (r[k] != w[k]) {
+                        if (VecDriver<C, T, N, VK::static_vec>::known_partial_order_deviation(ctx, ma, mb, r)) {
+                            break;
+                        }
                         ctx.violation("C01", std::string("diff:stack:relational:") + names[k], "stack relation differs from std::stack over std::vector");
                         return;
                     }
@@ -1720,14 +1823,14 @@ struct StackDriver : DriverBase<StackDriver<T, N>> {
                 skip();
                 return;
             }
-            T tmp(val);
+            T tmp = VecDriver<C, T, N, VK::static_vec>::mk(val);
             bool ok = call(a, full, false, [&] {
                 if (op == "push_copy") {
                     v.push(static_cast<T const&>(tmp));
                 } else if (op == "push_move") {
                     v.push(static_cast<T&&>(tmp));
                 } else {
-                    v.emplace(val);
+                    v.emplace(VecDriver<C, T, N, VK::static_vec>::mk(val));
                 }
             });
             if (ok) {
@@ -1755,7 +1858,7 @@ struct StackDriver : DriverBase<StackDriver<T, N>> {
                 skip();
                 return;
             }
-            bool ok = call(a, empty, false, [&] { v.top() = T(val); });
+            bool ok = call(a, empty, false, [&] { v.top() = VecDriver<C, T, N, VK::static_vec>::mk(val); });
             if (ok) {
                 m.back() = val;
                 ++ctx.stateChanging;
@@ -1805,7 +1908,7 @@ struct StackDriver : DriverBase<StackDriver<T, N>> {
                 case 1: { // from a container, copied
                     C c;
                     for (size_t i = 0; i < n; ++i) {
-                        c.push_back(T(static_cast<int>((st.v[i % 4] + static_cast<int64_t>(i)) % 8)));
+                        c.push_back(VecDriver<C, T, N, VK::static_vec>::mk((st.v[i % 4] + static_cast<int64_t>(i)) % 8));
                     }
                     made = new (mem) S(static_cast<C const&>(c));
                     break;
@@ -1813,7 +1916,7 @@ struct StackDriver : DriverBase<StackDriver<T, N>> {
                 case 2: { // from a container, moved
                     C c;
                     for (size_t i = 0; i < n; ++i) {
-                        c.push_back(T(static_cast<int>((st.v[i % 4] + static_cast<int64_t>(i)) % 8)));
+                        c.push_back(VecDriver<C, T, N, VK::static_vec>::mk((st.v[i % 4] + static_cast<int64_t>(i)) % 8));
                     }
                     made = new (mem) S(static_cast<C&&>(c));
                     break;
@@ -1980,6 +2083,11 @@ void register_vec_0()
     add_stack<int, 1>("int");
     add_stack<int, 3>("int");
     add_stack<int, 255>("int");
+    // floating-point elements: -0.0 and NaN make value equality differ from representation equality
+    add_static<double, 4>("double");
+    add_static<double, 9>("double");
+    add_inplace<double, 4>("double");
+    add_stack<double, 3>("double");
 }
 
 auto main(int argc, char** argv) -> int
@@ -1996,6 +2104,10 @@ void register_vec_1()
     add_all<sim::Tracked>("Tracked");
     add_stack<sim::Tracked, 2>("Tracked");
     add_stack<sim::Tracked, 4>("Tracked");
+    // defaulted (trivial) assignment with tracked construction / destruction
+    add_static<sim::TrackedDA, 4>("TrackedDA");
+    add_inplace<sim::TrackedDA, 2>("TrackedDA");
+    add_inplace<sim::TrackedDA, 4>("TrackedDA");
 }
 #elif SIM_PART == 2
 void register_vec_2() { add_all<sim::TrackedMoveOnly>("TrackedMoveOnly"); }
